@@ -157,13 +157,13 @@ CLAIMED["C05"] = dict(
          "offsets (stride_offsets_*, stride_accepted_*, stride below the known layout rejected); a vendor reading with an undefined "
          "code is rejected by the decoder (undefined_rejected_*). The few byte-exact relaxations (named in ref/SPEC_COMPARISON.md) are "
          "disjuncts of the Agree relations, and the hypotheses the literal statement needs are exhibited by proved counterexamples "
-         "(*_needs_length: payload shorter than announced, which the framing layer excludes; *_refuted: ability following-length, a "
-         "recorded known finding). The decoder models are tied to the real decoders by the C03 differential; the check also judges the "
+         "(*_needs_length: payload shorter than announced, which the framing layer excludes). AC ability records are read at the "
+         "stride their own 'following length' byte announces, for every value of it (decode_agrees_FF11*, *_long_record). The decoder models are tied to the real decoders by the C03 differential; the check also judges the "
          "REAL decoders' output against the vendor reader on every byte value at every record position, every adjacent byte pair "
          "(thorough), all counts and strides.",
     design_ref="DESIGN.md section 7, C05 and section 12",
     technique="Lean 4 proof (decoder model = independent vendor-document reader, for all payloads) + differential of the real decoders against both the model and the vendor reader",
-    note=CODEC_NOTE + "Timer status (0x37 / 0xC033) is not in the vendor documents; it is covered by C03/C17 only. Known findings: AT4/AT5 ability following-length byte is not used to advance.")
+    note=CODEC_NOTE + "Timer status (0x37 / 0xC033) is not in the vendor documents; it is covered by C03/C17 only.")
 
 CLAIMED["C04"] = dict(
     text="Theorems in Props/C04.lean, for EVERY well-formed control message of the four control kinds (AT4 0x2A group, 0x2C AC; AT5 0xC0/0x20 zone, "
